@@ -231,6 +231,17 @@ def _execute(sc, sim, out):
             if a != b:
                 out.violate('record-differs-from-object-interface', 'record %d (%s) differs in %s' % (i, eligible[i]['name'], describe_diff(a, b)))
                 break
+    for i, x in enumerate(recs):
+        mf = getattr(x, 'model_fluxes', None)
+        out.compared('fluxes-presence')
+        if sc['output_convolved']:
+            if mf is None or len(mf) != len(x.chi2) or (len(mf) and mf.shape[1] != len(W.fspec)):
+                out.violate('fluxes-presence', 'record %d: predicted fluxes requested but stored as %s for %d fits' % (
+                    i, None if mf is None else getattr(mf, 'shape', '?'), len(x.chi2)))
+                break
+        elif mf is not None:
+            out.violate('fluxes-presence', 'record %d: predicted fluxes stored although not requested' % i)
+            break
     if meta is not None and twin:
         out.compared('metadata')
         if canon_meta(meta) != canon_meta(twin[0].meta):
